@@ -153,7 +153,18 @@ class StatusChain:
                 return
             d = dotted(expr.func)
             if d in ('bool', 'int') and len(expr.args) == 1:
-                return   # bool(x) / int(bool) are 0/1
+                # bool(x) / int(bool) are 0/1 - and in the function that asks the model, x has to be about the report the model gave
+                asks = [c for c, ts_ in ctx.cg.calls_in(fi) if any(t.kind == 'func' and t.func.qualname.endswith('Model.errors') for t in ts_)]
+                if asks:
+                    from ..resolve import expand as _exp7
+                    ex = _exp7(ctx, fi, expr.args[0], at)
+                    about_report = any(any(y is c for c in asks) for y in ast.walk(ex)) or any(isinstance(y, ast.Call) and isinstance(y.func, ast.Attribute) and y.func.attr == 'errors' for y in ast.walk(ex))
+                    if not about_report and any(isinstance(y, ast.Attribute) and y.attr == 'metadata' for y in ast.walk(ex)):
+                        rep.violation(f'{fi.module.name}:{fi.qualname}: status value {norm(expr)[:60]}', fi.loc(at),
+                                      f'the status is computed from the metadata of the graph (`{norm(expr.args[0])[:50]}`), not from what Model.errors reported: a graph that already '
+                                      f'carries "# ::error-1 ..." lines - the output of an earlier --check run fed back - has its entries overwritten, the mapping does not grow, and '
+                                      f'the tool exits 0 although the errors are still there')
+                return
         if isinstance(expr, ast.IfExp):
             self.check_expr(fi, expr.body, at)
             self.check_expr(fi, expr.orelse, at)
@@ -300,6 +311,18 @@ def r12(ctx: Ctx) -> RuleReport:
     for modname in ('penman.__main__', 'penman.codec'):
         m = ctx.repo.module(modname)
         for fi in m.all_funcs:
+            # a model-taking function handed to map() / starmap() / filter() by reference is called without a model
+            for n in walk_local(fi.node):
+                if isinstance(n, ast.Call) and norm(n.func).split('.')[-1] in ('map', 'starmap', 'imap') and n.args and isinstance(n.args[0], (ast.Name, ast.Attribute)):
+                    probe = ast.Call(func=n.args[0], args=[], keywords=[])
+                    ast.copy_location(probe, n)
+                    ast.fix_missing_locations(probe)
+                    for t in ctx.cg.resolve_call(probe, fi):
+                        callee = t.func if t.kind == 'func' else None
+                        if callee is not None and 'model' in callee.params and len(n.args) - 1 < len([p_ for p_ in callee.positional[:callee.positional.index('model') + 1]]):
+                            rep.violation(f'{fi.module.name}:{fi.qualname}: {norm(n)[:90]}', fi.loc(n),
+                                          f'{callee.fq} takes a model, but `{norm(n)[:60]}` calls it with the items only: every graph read through this path is interpreted with the '
+                                          f'default model instead of the session model, while decode() uses the codec\'s own - under the AMR model ":consist-of" is then deinverted')
             for call, ts in ctx.cg.calls_in(fi):
                 for t in ts:
                     callee = t.func if t.kind == 'func' else (t.cls.find_method('__init__') if t.kind == 'class' else None)
